@@ -373,6 +373,96 @@ def r9_innermost_fallback_on_method_mismatch(ctx):
                                                               'is the PATH-based candidate and can be recorded although the scope-based one differs')))
 
 
+def r10_any_guard_only_on_request(ctx):
+    ctx.rule('C07.R10', 'P11 case evaluation of the attribute reader (`impl From<RouteProperties> for AnnotationProperties`, the function that turns '
+             '`#[diagnostic::pavex::route(..)]` into the MethodGuard the router is built from), for a route without an explicit method list and '
+             'every value of `allow_non_standard_methods` (Some(true) / Some(false) / absent): MethodGuard::Any — "every method reaches the '
+             'handler, there is no 405" — is produced exactly when the flag is Some(true); absent means the nine standard methods (the macro '
+             'writes the key only when it is true).')
+    from ..absint_std import StdSem, TagInterp
+    AP = 'pavexc_attr_parser'
+    cands = [b for b in ctx.fb.bodies(AP) if not b.is_promoted and b.nid == b.nroot and 'core::convert::From' in b.nid and 'RouteProperties' in b.id
+             and b.nid.endswith('::from') and 'AnnotationProperties' in b.nid]
+    b = ctx.need('C07.R10', 'impl From<RouteProperties> for AnnotationProperties', cands[0] if len(cands) == 1 else None)
+    if b is None:
+        return
+    defs = Defs(b)
+
+    def promoted_option_bool(body, op):
+        pl = op_place(op)
+        sl, _ = backward_slice(body, pl['l'], defs, through_calls=False) if pl else ([], set())
+        for _, _, n in sl:
+            rv = n.get('rv')
+            o = rv.get('op') if rv and rv['k'] == 'use' else None
+            if o and o.get('promoted') is not None:
+                pid = '%s::{promoted#%d}' % (o.get('powner') or body.id, int(o['promoted']))
+                for x in ctx.fb.bodies(AP):
+                    if x.id == pid:
+                        for _, _, st in x.all_assigns():
+                            r2 = st['rv']
+                            if r2['k'] == 'agg' and strip_generics(r2.get('adt', '')) == 'core::option::Option':
+                                return (r2['var'], (r2['ops'][0].get('int') != '0') if r2.get('ops') else None)
+        return None
+
+    def field_of(body, op):
+        pl = op_place(op)
+        sl, _ = backward_slice(body, pl['l'], defs, through_calls=False) if pl else ([], set())
+        for _, _, n in sl:
+            rv = n.get('rv')
+            q = rv.get('pl') if rv and rv['k'] == 'ref' else (op_place(rv['op']) if rv and rv['k'] == 'use' else None)
+            for e in (q or {}).get('p', []):
+                if e in ('f:allow_any_method', 'f:allow_non_standard_methods'):
+                    return e[2:]
+        return None
+
+    class Sem(StdSem):
+        crate = AP
+
+        def __init__(self, fb, vals):
+            super().__init__(fb)
+            self.vals, self.tests = vals, 0
+
+        def domain_call(self, interp, path, body, bb, term, short):
+            d = term.get('dest')
+            if short in ('core::cmp::PartialEq::eq', 'core::cmp::PartialEq::ne') and term['aty'] and 'Option<bool>' in term['aty'][0] and d is not None and body is b:
+                f, c = field_of(body, term['args'][0]), promoted_option_bool(body, term['args'][1])
+                if f is None or c is None:
+                    return None
+                self.tests += 1
+                dk = (body.id, d['l'])
+                path.alias.pop(dk, None)
+                path.tags.pop(dk, None)
+                eq = self.vals[f] == c
+                path.memo[dk] = eq if short.endswith('eq') else not eq
+                return [('next', path)]
+            return None
+
+        def domain_switch(self, interp, path, body, bb, term, enum):
+            src = term.get('src') or {}
+            if enum == 'core::option::Option' and 'f:method' in (src.get('p') or []) and body is b:
+                return ['None']             # the route has no explicit method list
+            return None
+
+        def domain_assign(self, interp, path, body, bb, st):
+            rv = st['rv']
+            if rv['k'] == 'agg' and strip_generics(rv.get('adt', '')).endswith('::MethodGuard'):
+                path.env['guard'] = rv['var']
+            return None
+
+    got, tests = {}, 0
+    for name, v in (('Some(true)', ('Some', True)), ('Some(false)', ('Some', False)), ('absent', ('None', None))):
+        sem = Sem(ctx.fb, {'allow_any_method': ('Some', True), 'allow_non_standard_methods': v})
+        try:
+            outs = TagInterp(sem, max_paths=3000).run(b, {})
+        except RuntimeError:
+            outs = []
+        tests += sem.tests
+        got[name] = sorted({oc[1].env.get('guard', '?') for oc in outs if oc[0] == 'return'})
+    want = {'Some(true)': ['Any'], 'Some(false)': ['Some'], 'absent': ['Some']}
+    ctx.ob('C07.R10', 'any-guard-only-on-request', tests > 0 and got == want, b.loc(),
+           'MethodGuard built for `allow(any_method)` and allow_non_standard_methods = %s (documented: %s)' % (got, want))
+
+
 def check(ctx):
     r1_detectors_gate(ctx)
     r2_nesting(ctx)
@@ -383,3 +473,4 @@ def check(ctx):
     r7_method_arms(ctx)
     r8_allow_list_reaches_the_fallback(ctx)
     r9_innermost_fallback_on_method_mismatch(ctx)
+    r10_any_guard_only_on_request(ctx)
